@@ -1310,11 +1310,15 @@ class KVDef(EntAttribute):
                         file.write('\n')
             elif self._type is ValueTypes.CHOICES:
                 for value, name, tags in self.choices_list:
-                    # Numbers can be unquoted, everything else cannot.
+                    # Numbers can be unquoted, everything else cannot. float() also accepts
+                    # forms like "+1", " 1" or "1_0" which would not be read back as written.
                     try:
                         float(value)
+                        is_number = all(x in '0123456789-.' for x in value)
                     except ValueError:
-                        value = f'"{value}"'
+                        is_number = False
+                    if not is_number:
+                        value = f'"{_fgd_escape(custom_syntax, value)}"'
 
                     file.write(f'\t\t{value}: ')
                     # Newlines aren't functional here, just replace.
